@@ -167,7 +167,7 @@ func runC20(w *World, r *Report) {
 				gs := guardsOf(ret.Block())
 				np := 0
 				for _, g := range gs {
-					if p, ok := g.cond.(*ssa.Parameter); ok && g.pol && (p.Name() == "noControl" || p.Name() == "noData") {
+					if p, ok := g.cond.(*ssa.Parameter); ok && g.pol && types.Identical(p.Type(), types.Typ[types.Bool]) {
 						np++
 					}
 				}
